@@ -328,7 +328,7 @@ PROPS["C12"] = {
                      P("test", "VerifFileKthLoadFails", w=2, k=1, maxlen=9),
                      P("test", "VerifHamtMissingShards", must_reach=("end", "lookup-blocked", "iterate"))],
     },
-    "bounds": {"quick": "files 2..5 chunks (width 2): every single block missing (not-found or arbitrary I/O error) x buffers 1..2: exact prefix then non-EOF load error; the k-th load failing for symbolic k; both also over contents with repeated chunks (<= 4 chunks); hand-built HAMTs (3 shapes, up to 3 sub-shards over 3 levels): every subset of missing shards: lookups crossing one report the load error, iteration terminates, yields exactly the reachable entries once, one error per missing shard met",
+    "bounds": {"quick": "files 2..5 chunks (width 2): every single block missing (not-found or arbitrary I/O error) x buffers 1..2: exact prefix then non-EOF load error; the k-th load failing for symbolic k; both also over contents with repeated chunks (<= 4 chunks); hand-built HAMTs (4 shapes, up to 3 sub-shards over 3..4 levels): every subset of missing shards: lookups crossing one report the load error, iteration terminates, yields exactly the reachable entries once, one error per missing shard met",
                "thorough": "files to 9 / 12 chunks"},
     "assumptions": [], "outside": "",
 }
@@ -362,8 +362,8 @@ PROPS["C13"] = {
 
 # ---------------------------------------------------------------- C14
 PROPS["C14"] = {
-    "programs": {"quick": [P("test", "VerifReifyTotal", must_reach=("end", "non-dagpb", "link-map", "file", "directory", "symlink-metadata", "shard-valid", "shard-invalid", "unknown-type"))]},
-    "bounds": {"quick": "node classes: 4 non-dag-pb kinds; dag-pb without Data / 3 undecodable payload shapes, 0..1 links; decodable Data with type = ANY int64, inline Data 0..2 bytes, hashType / fanout present or not with ANY uint64 value, 0..1 links; lazy and preload reifiers; Substrate() identity"},
+    "programs": {"quick": [P("test", "VerifReifyTotal", must_reach=("end", "non-dagpb", "link-map", "file", "directory", "symlink-metadata", "shard-valid", "shard-invalid", "unknown-type", "type-not-first"))]},
+    "bounds": {"quick": "node classes: 4 non-dag-pb kinds; dag-pb without Data / 3 undecodable payload shapes, 0..1 links; decodable Data with type = ANY int64 (DataType first, last, or behind an unknown field), inline Data 0..2 bytes, hashType / fanout present or not with ANY uint64 value, 0..1 links; lazy and preload reifiers; Substrate() identity"},
     "assumptions": ["Substrate identity (same node object) implies byte-identical re-encoding given a deterministic codec"], "outside": "",
 }
 
@@ -436,9 +436,9 @@ PROPS["C19"] = {
     "programs": {"quick": [P("testutil", "VerifFixtureGenerators", must_reach=("end", "unixfs-directory", "custom-generator"), target=2048, freecoins=5, freenames=1),
                            P("testutil", "VerifFixtureGenerators", must_reach=("end", "unixfs-directory", "custom-generator"), target=2048, freecoins=0, freenames=3),
                            P("testutil", "VerifFixtureFile"),
-                           P("testutil", "VerifFixtureWrap", must_reach=("end", "with-siblings"))]},
+                           P("testutil", "VerifFixtureWrap", must_reach=("end", "with-siblings", "empty-path"))]},
     "native_any_label": True,
-    "bounds": {"quick": "UnixFSDirectory (default, sharded bit-width 3, custom child generator), GenerateDirectory (plain/sharded), UnixFSFile sizes 0..3, BuildDirectory; target size 2048; the first 5 dice and the first generated name are explorer-chosen (every value) — and, in a second program, the first 3 generated names (so repeated draws of one name arise) —, later draws are scripted (file, largest size, fresh name); WrapContent under paths of 1..3 segments, exclusive or with generated siblings before/after at every level: names, links, contents at every level and the wanted content at the path"},
+    "bounds": {"quick": "UnixFSDirectory (default, sharded bit-width 3, custom child generator), GenerateDirectory (plain/sharded), UnixFSFile sizes 0..3, BuildDirectory; target size 2048; the first 5 dice and the first generated name are explorer-chosen (every value) — and, in a second program, the first 3 generated names (so repeated draws of one name arise) —, later draws are scripted (file, largest size, fresh name); WrapContent under paths of 0..3 segments (incl. '', '/', 'a//b'), exclusive or with generated siblings before/after at every level: names, links, contents at every level and the wanted content at the path"},
     "assumptions": ["crypto/rand.Int and namegen are replaced by a scripted source (their draws are the symbolic inputs); native replay runs the real generators with a math/rand stream and accepts any failing assertion as confirmation"],
     "outside": "WrapContent with non-exclusive random siblings; larger target sizes",
 }
@@ -448,19 +448,19 @@ PROPS["C20"] = {
     "programs": {
         "quick": [P("test", "VerifFileFullReadOrder", must_reach=("end", "preload"), w=2, k=1, maxlen=6),
                   P("test", "VerifFileFullReadOrder", must_reach=("end", "preload", "repeated-block"), w=2, k=1, maxlen=4, distinct=0),
-                  P("test", "VerifHandBuiltReadOrder", must_reach=("end", "preload", "skewed-tsize", "two-levels")),
+                  P("test", "VerifHandBuiltReadOrder", must_reach=("end", "preload", "skewed-tsize", "two-levels", "identity-cid-leaf")),
                   P("test", "VerifHamtReaderWellFormed", must_reach=("end", "member", "non-member", "iterate", "enumerate-then-lookup", "lookup-then-enumerate", "empty-key")),
                   P("test", "VerifHamtPreload", must_reach=("end", "missing")), P("test", "VerifHamtPreload", must_reach=("end", "missing"), lg=10, hi=1),
                   P("test", "VerifPathTraversal", must_reach=("end", "present", "absent"))],
         "thorough": [P("test", "VerifFileFullReadOrder", must_reach=("end", "preload"), w=2, k=1, maxlen=12),
                      P("test", "VerifFileFullReadOrder", must_reach=("end", "preload"), w=3, k=1, maxlen=13),
                      P("test", "VerifFileFullReadOrder", must_reach=("end", "preload", "repeated-block"), w=2, k=1, maxlen=5, distinct=0),
-                     P("test", "VerifHandBuiltReadOrder", must_reach=("end", "preload", "skewed-tsize", "two-levels")),
+                     P("test", "VerifHandBuiltReadOrder", must_reach=("end", "preload", "skewed-tsize", "two-levels", "identity-cid-leaf")),
                      P("test", "VerifHamtReaderWellFormed", must_reach=("end", "member", "non-member", "iterate", "enumerate-then-lookup", "lookup-then-enumerate", "empty-key")),
                      P("test", "VerifHamtPreload", must_reach=("end", "missing")),
                      P("test", "VerifPathTraversal", must_reach=("end", "present", "absent"))],
     },
-    "bounds": {"quick": "files 0..6 chunks (width 2): first-request order of a full sequential read and of preload == independent depth-first link-order walk of the DISTINCT blocks (first occurrences; contents with repeated chunks up to 4 chunks included); hand-built one- and two-level files with correct FileSize/BlockSizes whose raw-leaf links carry an exact or a skewed Tsize; HAMT iteration / Length / preload request shards in depth-first link order; lookups request path shards root-to-leaf; path traversal requests path blocks root-to-target",
+    "bounds": {"quick": "files 0..6 chunks (width 2): first-request order of a full sequential read and of preload == independent depth-first link-order walk of the DISTINCT blocks (first occurrences; contents with repeated chunks up to 4 chunks included); hand-built one- and two-level files with correct FileSize/BlockSizes whose raw-leaf links carry an exact or a skewed Tsize and whose leaves may sit under identity-multihash CIDs; HAMT iteration / Length / preload request shards in depth-first link order; lookups request path shards root-to-leaf; path traversal requests path blocks root-to-target",
                "thorough": "files to 12 / 13 chunks at widths 2, 3"},
     "assumptions": ["the shard cache is a Go map: any dependence of request order on its iteration order would show up under the engine's insertion-order maps only if the code iterated it; the code is also checked with explorer-chosen map orders in C10/C16"],
     "outside": "",
